@@ -37,7 +37,7 @@ ASSUMPTIONS = [
     "tolerance of clause (d) is calibrated: worst observed error on the unchanged tree is recorded in residuals",
     "time step 1 fs or 0.5 fs; bath correlation times >= 20 fs",
 ]
-BUDGET = {"quick": (28, 75), "thorough": (60, 900)}
+BUDGET = {"quick": (60, 75), "thorough": (100, 900)}
 
 
 def grid(tier):
@@ -60,6 +60,10 @@ def _dyn(draw, big):
     n = len(spec["E"])
     A = draw(gens.density_matrix_spec(n + 1))
     nt = draw(st.integers(40, 100 if not big else 160))
+    # individual baths may have exactly zero reorganisation energy (an uncoupled site next to coupled ones)
+    zero = draw(st.sampled_from([None, None, None, 0, 1]))
+    if zero is not None and zero < n and kind != "c":
+        spec["bath"][zero] = dict(spec["bath"][zero], reorg=0)
     return {"kind": kind, "spec": spec, "A": A, "nt": nt, "dt": draw(st.sampled_from([1.0, 0.5])),
             "depth": draw(st.integers(1, 3))}
 
